@@ -276,18 +276,125 @@ def partition_case(rnd):
     return None
 
 
+FRAGMENTS = ["{", "}", "[Song]", "[Events]", "[SyncTrack]", "[ExpertSingle]", "[", "]", "", " ", "  0 = N 0 0", "  0 = B 120000", "  0 = TS 4", "Resolution = 192",
+             "  0 = N 8 0", "  5 = S 2 0", "  0 = E \"section x\"", "  0 = B 0", "  10 = B 1", "  0 = TS 0 63", "  99999999 = N 7 99999999", "  0 = A 99999999",
+             "{ ", " }", "[[x]]", "[]", "x = y"]
+
+
+def fuzz_text(rnd):
+    """a well-framed generated chart with 1-4 line deletions, duplications, swaps, character edits or
+    inserted fragments (numeric tokens stay within 8 digits)"""
+    sections, want = gen_sections(rnd, allow_bad=True)
+    lines = text_of(sections).split("\n")[:-1]
+    for _ in range(rnd.choice([1, 1, 2, 3, 4])):
+        if not lines:
+            break
+        k = rnd.randrange(len(lines))
+        op = rnd.randrange(6)
+        if op == 0:
+            del lines[k]
+        elif op == 1:
+            lines.insert(k, lines[k])
+        elif op == 2 and k + 1 < len(lines):
+            lines[k], lines[k + 1] = lines[k + 1], lines[k]
+        elif op == 3 and lines[k]:
+            j = rnd.randrange(len(lines[k]))
+            lines[k] = lines[k][:j] + rnd.choice("{}[] =0189NSEBTA\"x\t") + lines[k][j + 1:]
+        elif op == 4:
+            lines.insert(k, rnd.choice(FRAGMENTS))
+        else:
+            lines[k] = rnd.choice(FRAGMENTS)
+    return "\n".join(lines) + ("\n" if rnd.random() < 0.8 else ""), want
+
+
+def _render_all(chart):
+    str(chart), repr(chart)
+    for o in (chart.metadata, chart.sync_track, chart.global_events_track):
+        str(o), repr(o)
+    evs = list(chart.sync_track.time_signature_events) + list(chart.sync_track.bpm_events.events) + list(chart.sync_track.anchor_events)
+    g = chart.global_events_track
+    evs += list(g.text_events) + list(g.section_events) + list(g.lyric_events)
+    for dd in chart.instrument_tracks.values():
+        for t in dd.values():
+            str(t), repr(t)
+            evs += list(t.note_events) + list(t.star_power_events) + list(t.track_events)
+    for e in evs:
+        str(e), repr(e)
+
+
+def fuzz_case(rnd, via_path=False):
+    """C18 as stated: arbitrary edited text either parses (and everything renders) or raises one
+    of the three documented errors"""
+    import chartparse.chart as cc
+    from chartparse.exceptions import RegexNotMatchError, MissingRequiredField
+    quiet = [logging.getLogger("chartparse.track"), logging.getLogger("chartparse.chart")]
+    old = [q.level for q in quiet]
+    for q in quiet:
+        q.setLevel(logging.CRITICAL)
+    try:
+        text, want = fuzz_text(rnd)
+        inp = {"text": text, "want_tracks": repr(want)}
+        try:
+            if via_path:
+                fd, path = tempfile.mkstemp(suffix=".chart")
+                try:
+                    with os.fdopen(fd, "wb") as f:
+                        f.write(text.encode("utf-8"))
+                    chart = cc.Chart.from_filepath(path, want_tracks=want)
+                finally:
+                    os.unlink(path)
+            else:
+                chart = cc.Chart.from_file(io.StringIO(text), want_tracks=want)
+        except (ValueError, RegexNotMatchError, MissingRequiredField):
+            return None
+        except Exception as e:
+            return {"clause": "parsing arbitrary text returns a chart or raises ValueError, RegexNotMatchError or MissingRequiredField",
+                    "observed": f"raised {type(e).__name__}: {e}"[:300], "input": inp}
+        try:
+            _render_all(chart)
+        except Exception as e:
+            return {"clause": "every returned chart and every event in it renders with str() and repr()",
+                    "observed": f"rendering raised {type(e).__name__}: {e}"[:300], "input": inp}
+        return None
+    finally:
+        for q, lv in zip(quiet, old):
+            q.setLevel(lv)
+
+
+def partition_fuzz_case(rnd):
+    import chartparse.chart as cc
+    from chartparse.exceptions import RegexNotMatchError
+    text, _ = fuzz_text(rnd)
+    lines = text.splitlines()
+    try:
+        d = cc.Chart._partition_lines_by_data_section(lines)
+        for v in d.values():
+            list(v)
+    except RegexNotMatchError:
+        return None
+    except Exception as e:
+        return {"clause": "the section scanner raises nothing but RegexNotMatchError on arbitrary lines", "observed": f"raised {type(e).__name__}: {e}"[:300],
+                "input": {"lines": repr(lines)}}
+    return None
+
+
+def _both(a, b):
+    def f(rnd):
+        return a(rnd) or b(rnd)
+    return f
+
+
 def attach(reg):
-    for inst in ("sections", "required-sections", "routing", "safety"):
+    for inst in ("sections", "required-sections", "routing"):
         try:
             reg.by_name(f"chartparse.chart:Chart.from_file[{inst}]").native_search = lambda rnd: one_file_case(rnd, False)
         except KeyError:
             pass
-    try:
-        reg.by_name("chartparse.chart:Chart.from_filepath[safety]").native_search = lambda rnd: one_file_case(rnd, True)
-    except KeyError:
-        pass
-    for n in ("chartparse.chart:Chart._partition_lines_by_data_section", "chartparse.chart:Chart._partition_lines_by_data_section[safety]"):
+    for name, fn in (("chartparse.chart:Chart.from_file[safety]", lambda rnd: fuzz_case(rnd, False)),
+                     ("chartparse.chart:Chart.from_filepath[safety]", _both(lambda rnd: fuzz_case(rnd, True), lambda rnd: one_file_case(rnd, True))),
+                     ("chartparse.chart:Chart._partition_lines_by_data_section", partition_case),
+                     ("chartparse.chart:Chart._partition_lines_by_data_section[safety]", partition_fuzz_case)):
         try:
-            reg.by_name(n).native_search = partition_case
+            reg.by_name(name).native_search = fn
         except KeyError:
             pass
